@@ -243,6 +243,29 @@ G gen_elem(Rng & r, std::string * label = nullptr, double maxmag = 1e3)
   auto st           = strat_angle(r);
   if (label) *label = st.label;
   for (int i = 0; i < Rep - D::unit_k; ++i) g.coeffs()(i) = static_cast<S>(strat_lin(r, maxmag));
+  // exactly representable rotations (quarter/half turns, the 24 Hurwitz units): their products are exact in
+  // floating point, so coefficients that are exactly 0 (qw == 0 half turns in particular) do occur
+  if ((D::unit_k == 2 || D::unit_k == 4) && r.below(8) == 0) {
+    if (label) *label = "exact_lattice";
+    if constexpr (D::unit_k == 2) {
+      static const int sc[4][2] = {{0, 1}, {1, 0}, {0, -1}, {-1, 0}};
+      int k               = r.below(4);
+      g.coeffs()(Rep - 2) = static_cast<S>(sc[k][0]);
+      g.coeffs()(Rep - 1) = static_cast<S>(sc[k][1]);
+      return g;
+    } else if constexpr (D::unit_k == 4) {
+      S q[4] = {0, 0, 0, 0};
+      if (r.below(2)) {
+        q[r.below(4)] = 1;
+      } else {
+        for (int i = 0; i < 4; ++i) q[i] = r.below(2) ? S(0.5) : S(-0.5);
+      }
+      if (q[3] < 0)
+        for (int i = 0; i < 4; ++i) q[i] = -q[i];
+      for (int i = 0; i < 4; ++i) g.coeffs()(Rep - 4 + i) = q[i];
+      return g;
+    }
+  }
   if constexpr (D::unit_k == 2) {
     double sgn          = r.below(2) ? 1 : -1;
     g.coeffs()(Rep - 2) = static_cast<S>(std::sin(static_cast<ld>(sgn * st.v)));
